@@ -88,18 +88,24 @@ Section Model.
      call; [ent] is what crypto_entropy_read(blinding, CRYPTO_DH_PRIVLEN) delivers (None = it
      failed).  None = returned -1, Some r = returned 0 and the buffer now holds r.  All OpenSSL
      calls succeed here; their failure ladders are the subject of DhWipeModel.v. *)
-  Definition blinded_modexp (r0 : list N) (a : Z) (priv : list N)
-             (ent : option (list N)) : option (list N) :=
-    let outlen := p_publen P in                 (* CRYPTO_DH_PUBLEN, also when called for a key *)
+  (* the two exponents handed to BN_mod_exp: blinding' = blinding + 2^256 and
+     (priv + 4 * 2^256) - blinding' *)
+  Definition blinded_exponents (priv blinding : list N) : Z * Z :=
     let two_exp_256_bn := bn_bin2bn (p_two256 P) (p_two256_len P) in
     let priv_bn := bn_bin2bn priv (p_privlen P) in
     let priv_bn := add_times (p_nadd P) priv_bn two_exp_256_bn in
+    let blinding_bn := bn_bin2bn blinding (p_privlen P) in
+    let blinding_bn := add_times (p_nbadd P) blinding_bn two_exp_256_bn in
+    let priv_blinded := priv_bn - blinding_bn in                  (* BN_sub(priv_blinded, priv_bn, blinding_bn) *)
+    (blinding_bn, priv_blinded).
+
+  Definition blinded_modexp (r0 : list N) (a : Z) (priv : list N)
+             (ent : option (list N)) : option (list N) :=
+    let outlen := p_publen P in                 (* CRYPTO_DH_PUBLEN, also when called for a key *)
     match ent with
     | None => None
     | Some blinding =>
-      let blinding_bn := bn_bin2bn blinding (p_privlen P) in
-      let blinding_bn := add_times (p_nbadd P) blinding_bn two_exp_256_bn in
-      let priv_blinded := priv_bn - blinding_bn in
+      let '(blinding_bn, priv_blinded) := blinded_exponents priv blinding in
       let m_bn := modulus in
       let r1 := modexp a blinding_bn m_bn in
       let r2 := modexp a priv_blinded m_bn in
